@@ -193,3 +193,25 @@ def pt_of(rec):
     """the Pt value of a mutable point record (its time must be set)"""
     f = rec.t
     return mkpt(o_val(f["_time"].t), f["_measurement"].t, f["_tags"].t, f["_fields"].t)
+
+
+# ---------------------------------------------------------------- updates
+
+AnyV = TU("AnyV")  # opaque update arguments (datetime / str / mapping / callable / None)
+Upd = TU("Updater")  # the closure returned by _generate_updater
+_upd = sort_of(Upd)
+upd_raises = z3.Function("upd_raises", _upd, sort_of(Pt), z3.BoolSort())  # perform_update(point) raises
+upd_result = z3.Function("upd_result", _upd, sort_of(Pt), sort_of(Pt))  # the point after a successful perform_update
+chgset = z3.Function("changed", sort_of(LItem), _upd, sort_of(SInt), sort_of(SInt))  # ghost: selected positions whose point changes
+
+
+def changed_set(items, u, A):
+    """ghost definition: C = { i in A | upd(S[i]) != S[i] }"""
+    C = chgset(items, u, A)
+    i = z3.Int(fresh_name("i"))
+    body = z3.Select(C, i) == z3.And(z3.Select(A, i), upd_result(u, dec(l_at(items, i))) != dec(l_at(items, i)))
+    return C, [forall([i], body, patterns=[z3.Select(C, i), l_at(items, i)]), card_is_cnt(C, l_len(items))] + card_facts(C)
+
+AV_NONE = z3.Const("av_none", sort_of(AnyV))
+q_noop_tags = z3.Const("TagQuery().noop()", sort_of(Q))
+q_noop_meas = z3.Const("MeasurementQuery().noop()", sort_of(Q))
